@@ -870,14 +870,29 @@ class Interp(object):
         self.havoc(node, env, spec)
         if spec.rebind is not None:
             spec.rebind(LoopState(self, env, SInt(k)))
-        ctx.assume(z3.And(k0 <= k, k <= base.n))
-        base.pos = k
-        self.lockstep(it, base, k, k0)
+        longest = isinstance(it, bi.ZipIter) and it.longest
+        if longest:
+            # zip_longest(a, b, ...): runs for max(remaining) steps; at step j input i stands at min(j, remaining_i) (T2)
+            if not all(isinstance(i, SrcIter) for i in it.inners):
+                raise Unsupported('zip_longest over non-source iterators in a contracted loop at %s' % self.where(node))
+            starts = [(i, i.pos, z3.simplify(i.n - i.pos)) for i in it.inners]
+            total = starts[0][2]
+            for _, _, r in starts[1:]:
+                total = z3.If(r > total, r, total)
+            end = z3.simplify(k0 + total)
+            ctx.assume(z3.And(k0 <= k, k <= end))
+            for i, p0, r in starts:
+                i.pos = z3.simplify(p0 + z3.If(k - k0 < r, k - k0, r))
+        else:
+            end = base.n
+            ctx.assume(z3.And(k0 <= k, k <= base.n))
+            base.pos = k
+            self.lockstep(it, base, k, k0)
         if spec.invariant is not None:
             sti = LoopState(self, env, SInt(k))
             sti.k0 = SInt(k0)
             ctx.assume(spec.invariant(sti))
-        if ctx.branch(k < base.n, 'loop continues'):
+        if ctx.branch(k < end, 'loop continues'):
             dout = Seq(smt.fresh_arr('dout'), z3.IntVal(0), 'list', 'Ghost')
             ctx.out = dout
             ctx.in_iteration = (label, SInt(k))
@@ -910,13 +925,17 @@ class Interp(object):
                 st2.k0 = SInt(k0)
                 ctx.oblige('%s: carried-state invariant preserved' % label, spec.invariant(st2), self.where(node), 'inv-step')
             # C02 (laziness): one iteration pulls exactly its own row -- no read-ahead, no materialisation
-            if getattr(self, 'check_pulls', True):
+            if getattr(self, 'check_pulls', True) and not longest:
                 ctx.oblige('%s: an iteration pulls no source row besides its own (no read-ahead)' % label,
                            base.pos == k + 1, self.where(node), 'pull')
             raise PathEnd()
         else:
             base.exhausted_seen = True
             base.looped = True       # consumed row by row by a contracted loop (not materialised)
+            if longest:
+                for i in it.inners:
+                    i.exhausted_seen = True
+                    i.looped = True
             # after the loop the trace is  pre ++ concat_k delta(S[k])  (meta-theorem); post-loop yields go to a new
             # segment so that the harness can state obligations on them separately
             ctx.pre_loop_out = pre_out
